@@ -107,6 +107,18 @@ def main_loop(f, ps):
     return next(iter(heads))
 
 
+def residue_cases(ex, p, rem, fname, top=3):
+    """the residues 0..top a tail path stands for: the one its conditions fix, or - when the code does not branch on every
+    residue - each value its conditions leave possible (the path is then checked once per value)"""
+    r = p.eqs.get(rem)
+    if r is not None:
+        return [r]
+    lo, hi, excl = ex._range(p, Lf({rem: 1}))
+    if hi is None or lo is None or lo < 0 or hi > top:
+        raise Broken("%s: a path leaves the data loop with the remaining length not bounded to 0..%d by its conditions: unrecognised shape" % (fname, top))
+    return [x for x in range(lo, hi + 1) if x not in excl]
+
+
 def problems(p):
     return [e for e in p.events if e[0] in ("load-unknown", "store-unknown", "read-uninit")]
 
@@ -222,10 +234,18 @@ def check_absorb(ck, mod, ks, label, rulemap):
     cur, rem = ("hdp", ptrs[0].id), ("hd", ints[0].id)
     n = 0
     seen = set()
+    expanded = []
     for p in ps:
+        if p.end[0] == "ret" and p.blocks and p.blocks[0] == hdr and p.eqs.get(rem) is None:
+            expanded += [(p, r_) for r_ in residue_cases(ex, p, rem, f.name)]
+        else:
+            expanded.append((p, None))
+    for p, rforced in expanded:
         if p.end[0] == "loop-entry":
             ini_p, ini_n = p.env.get(("init", ptrs[0].id)), p.env.get(("init", ints[0].id))
             okp = (not is_word(ini_p)) and ini_p == Lf.s(("arg", f.param_index("data"))) and ini_n == Lf.s(("n", f.param_index("size")))
+            if not okp and (is_word(ini_p) or is_word(ini_n) or set(k_ for k_ in ini_p if k_ != 1) != {("arg", f.param_index("data"))} or set(k_ for k_ in ini_n if k_ != 1) != {("n", f.param_index("size"))}):
+                raise Broken("%s: the loop is not driven by (data cursor, remaining size) but by %s / %s: unrecognised shape" % (f.name, ini_p, ini_n))
             c.ob(okp and not calls_of(p), "ADVANCE", "absorb-init", "cursor starts at data, remaining length at size; nothing happens before the loop",
                  "loop starts with cursor=%s remaining=%s / events %s" % (ini_p, ini_n, calls_of(p)))
             n += 1
@@ -240,10 +260,9 @@ def check_absorb(ck, mod, ks, label, rulemap):
                  "after a block cursor=%s remaining=%s (lock-step broken)" % (bp, bn))
             n += 2
         elif p.end[0] == "ret":
-            r = pathname(p)
+            r = rforced if rforced is not None else pathname(p)
             if r is None:
-                c.ob(False, "ADVANCE", "absorb-residue", "", "a path leaves the function with the remaining length not determined to be 0..3: conditions %s" % [(x[0], repr(x[1]), x[2]) for x in p.conds])
-                continue
+                raise Broken("%s: a path returns without passing the data loop: unrecognised shape" % f.name)
             name = "tail%d" % r
         else:
             continue
@@ -274,7 +293,9 @@ def check_absorb(ck, mod, ks, label, rulemap):
         c.ob(ins <= set(range(r)), "INRANGE", "absorb-%s-reads" % name, "reads exactly bytes [0,%d) at the cursor" % r, "reads offsets %s with only %d byte(s) remaining" % (sorted(ins), r))
         c.ob(not problems(p), "MODE", "absorb-%s-clean" % name, "no unknown access", "unexpected accesses: %s" % problems(p)[:2])
         n += 6
-    c.ob(seen == {0, 1, 2, 3, 4}, "ADVANCE", "absorb-classes", "all residue classes 0..3 and the full block are handled", "path classes found: %s" % sorted(seen))
+    if seen != {0, 1, 2, 3, 4}:
+        raise Broken("%s: the path classes found (%s) are not the residues 0..3 plus the full block: unrecognised shape" % (f.name, sorted(seen)))
+    c.ob(True, "ADVANCE", "absorb-classes", "all residue classes 0..3 and the full block are handled", "")
     return n + 1
 
 
@@ -374,6 +395,12 @@ def check_cipher(ck, mod, f, label, rulemap):
             if not is_word(ini_n) and any(isinstance(s_, tuple) and s_[0] in ("quo", "rem", "trunc", "mod") for s_ in ini_n):
                 raise Broken("%s: the data loop counts blocks with a derived counter (%s) instead of the remaining length: loop shape not supported by the lock-step rule" % (f.name, ini_n))
             okc = set(repr(inits[I.id]) for I in ptrs) == {repr(Lf.s(A["m"])), repr(Lf.s(A["c"]))} and inits[ints[0].id] == want_n
+
+            def _pform(v, syms):
+                return v is not None and not is_word(v) and len([k_ for k_ in v if k_ != 1]) == 1 and [k_ for k_ in v if k_ != 1][0] in syms and v[[k_ for k_ in v if k_ != 1][0]] == 1
+            if not okc and not (all(_pform(inits[I.id], (A["m"], A["c"])) for I in ptrs) and _pform(ini_n, (A["mlen"], A["clen"]))):
+                raise Broken("%s: the data loop is not driven by cursors into m / c and a remaining length (loop-carried values start at %s / %s): unrecognised shape"
+                             % (f.name, [repr(inits[I.id]) for I in ptrs], ini_n))
             c.ob(okc, "ADVANCE", "cursor-init", "cursors start at m and c, remaining length at %s" % want_n,
                  "loop-carried cursors are %s and remaining %s; expected cursors starting at m and c that advance with the data (a cursor that is not loop-carried never advances)"
                  % ([repr(inits[I.id]) for I in ptrs], inits[ints[0].id]))
@@ -410,11 +437,18 @@ def check_cipher(ck, mod, f, label, rulemap):
             n += 1
         if LI[h2]["in"] is None or LI[h2]["out"] is None:
             raise Broken("%s: cursors of the second data loop cannot be related to the first: unrecognised shape" % f.name)
+    expanded = []
     for p in ps:
+        h_ = p.blocks[0] if p.blocks else None
+        if p.end[0] == "ret" and h_ in LI and p.eqs.get(LI[h_]["rem"]) is None:
+            expanded += [(p, r_) for r_ in residue_cases(ex, p, LI[h_]["rem"], f.name)]
+        else:
+            expanded.append((p, None))
+    for p, rforced in expanded:
         ev = calls_of(p)
         if p.end[0] == "loop-entry":
             continue
-        if p.end[0] == "ret" and not any(isinstance(s, tuple) and s[0] == "hd" for s in p.eqs):
+        if p.end[0] == "ret" and rforced is None and not any(isinstance(s, tuple) and s[0] == "hd" for s in p.eqs):
             continue
         h0 = p.blocks[0] if p.blocks else None
         if h0 not in LI:
@@ -438,10 +472,9 @@ def check_cipher(ck, mod, f, label, rulemap):
                  "both cursors += %d and remaining -= %d per iteration" % (r, r), "after an iteration: input cursor %s, output cursor %s, remaining %s (lock-step broken)" % (bi, bo, bn))
             n += 2
         else:
-            r = pathname(p)
+            r = rforced if rforced is not None else p.eqs.get(rem)
             if r is None:
-                c.ob(False, "ADVANCE", "residue", "", "a path leaves the loop with the remaining length not determined to be 0..3")
-                continue
+                raise Broken("%s: a path leaves the data loop with the remaining length not determined: unrecognised shape" % f.name)
             name = "tail%d" % r
         seen.add(r if p.end[0] != "backedge" else ("iter", h0))
         outs = mode.outs_of(p)
@@ -566,8 +599,9 @@ def check_cipher(ck, mod, f, label, rulemap):
             n += 2
         c.ob(not problems(p), "RT", "%s-clean" % name, "no unknown access", "unexpected accesses: %s" % problems(p)[:2])
         n += 1
-    c.ob(seen == {0, 1, 2, 3} | {("iter", h_) for h_ in heads}, "ADVANCE", "classes", "all residues 0..3 and the generic iteration of every data loop are handled",
-         "path classes found: %s" % sorted(seen, key=repr))
+    if seen != {0, 1, 2, 3} | {("iter", h_) for h_ in heads}:
+        raise Broken("%s: the path classes found (%s) are not the residues 0..3 plus one generic iteration per data loop: unrecognised shape" % (f.name, sorted(seen, key=repr)))
+    c.ob(True, "ADVANCE", "classes", "all residues 0..3 and the generic iteration of every data loop are handled", "")
     return n + 1
 
 
